@@ -51,15 +51,17 @@ Definition cell_differs (f:col * col) (i j:Z) : bool :=
 Definition row_differs (fields:list (col * col)) (i j:Z) : bool :=
   existsb (fun f => cell_differs f i j) fields.
 
-Definition key_block (okeys ovf nkeys:list Z) (fields:list (col * col)) (k:Z) : list src :=
-  let vs := versions okeys ovf k in
+(* the block of one key: its old versions vs (oldest first), then the snapshot row nr, if any,
+   iff the key is new or the row differs from the latest old version *)
+Definition block (dif:Z -> Z -> bool) (vs:list Z) (nr:option Z) : list src :=
   map FromOld vs ++
-  match new_row nkeys k with
-  | Some j =>
-    if match vs with [] => true | _ => row_differs fields (last vs 0) j end
-    then [FromNew j] else []
+  match nr with
+  | Some j => if match vs with [] => true | _ => dif (last vs 0) j end then [FromNew j] else []
   | None => []
   end.
+
+Definition key_block (okeys ovf nkeys:list Z) (fields:list (col * col)) (k:Z) : list src :=
+  block (row_differs fields) (versions okeys ovf k) (new_row nkeys k).
 
 Definition plan (okeys ovf nkeys:list Z) (fields:list (col * col)) : list src :=
   flat_map (key_block okeys ovf nkeys fields) (all_keys okeys nkeys).
